@@ -488,6 +488,15 @@ def run(repo: Repo, rep):
     r1b_setup(repo, rep)
     from .c12 import r3_selection  # name-based selection used by every model's input re-ordering
     r3_selection(repo, rep)
+    from .c08 import r2_fix_points_order  # "the model outputs at those rows", whatever the variable order of the sampler's space
+    r2_fix_points_order(repo, rep)
+    from .c13 import r2_r3_mapping, r4_defaults_alignment  # residual and data functions receive their arguments by name; declared defaults belong to their own parameter
+    r2_r3_mapping(repo, rep)
+    r4_defaults_alignment(repo, rep)
+    from .c03 import r2_pairing, r5_accumulators, r6_value_free_control  # "derivatives of outputs with respect to the named coordinates are available and correct"
+    r2_pairing(repo, rep)
+    r5_accumulators(repo, rep)
+    r6_value_free_control(repo, rep)
 
 
 _C = "src/torchphysics/problem/conditions/condition.py"
